@@ -856,6 +856,48 @@ func (cr *caseRun) fixUnknown() {
 
 func (cr *caseRun) mgrOf(c int) int { return cr.c.LockOf[c-1] }
 
+// resolveUnknown: manager m was released while sharers were waiting for it, and it is not known
+// yet whether one of them was handed it (its access then returns at once) or every waiter's
+// select had already chosen its timer (they return a refusal at once, the variable is free).
+// Before another sharer's access to m is issued the waiters' outcomes are collected, so that
+// the driver's view ("held by another sharer" or not) is a fact and not a guess.
+func (cr *caseRun) resolveUnknown(s *sharer, m int) {
+	for cr.holder[m-1] == -1 && !cr.hung {
+		var w *sharer
+		for _, o := range cr.sh {
+			if o != s && o.state == "wait" && cr.mgrOf(o.pend.c) == m {
+				w = o
+				break
+			}
+		}
+		if w == nil {
+			cr.fixUnknown()
+			if cr.holder[m-1] == -1 {
+				cr.holder[m-1] = 0
+			}
+			return
+		}
+		cr.await(w)
+	}
+}
+
+// letObserverThrough: a GetState() queued behind a section that has ended takes the free lock
+// for an instant; an access issued in that instant would wait for the observer (and, with a
+// short timeout on a loaded machine, be refused), which the model of the sharers does not
+// describe. Sequencing only, nothing is decided here.
+func (cr *caseRun) letObserverThrough(m int) {
+	deadline := time.Now().Add(cr.wd)
+	for {
+		cr.mu.Lock()
+		busy := cr.asyncOn[m-1] != nil
+		cr.mu.Unlock()
+		if !busy || time.Now().After(deadline) {
+			return
+		}
+		time.Sleep(100 * time.Microsecond)
+	}
+}
+
 // settle records the outcome of sharer s's access r.
 func (cr *caseRun) settle(s *sharer, r result, immediate bool) {
 	switch r.res {
@@ -1171,7 +1213,11 @@ func (cr *caseRun) gated() {
 				continue
 			}
 			s.pend = command{t: "op", k: st.K, c: st.C, v: st.V}
+			cr.resolveUnknown(s, cr.mgrOf(st.C))
 			h := cr.holder[cr.mgrOf(st.C)-1]
+			if h == 0 {
+				cr.letObserverThrough(cr.mgrOf(st.C))
+			}
 			if h != 0 && h != s.id && cr.c.Fam == "fin" {
 				// all timers of a case have the same length: the sharer that started waiting first is
 				// refused first. Start this wait well after the previous one, so that a variable the
